@@ -13,6 +13,8 @@ id_spec is carried in cases as a tagged, JSON-able description:
         "missing" (dict subclass with __missing__; "missing": {featuretype: entry} it computes, KeyError otherwise) |
         "getitem" (dict subclass whose __getitem__ / get / __contains__ alias featuretypes: "alias": {featuretype: item key})
         The per-featuretype entry is whatever the dict gives for that featuretype (dict_entry below).
+        optional "tuples": [featuretypes whose (non-string) item is handed over as a TUPLE of names instead of a list]; a
+        {"form": "list"} spec may carry "seq": "tuple" (the whole id_spec is a tuple).  'list or tuple': same meaning.
     {"form": "callable", "v": <name in CALLABLES>}
 """
 COLUMNS = ("seqid", "source", "featuretype", "start", "end", "score", "strand", "frame")
@@ -131,6 +133,7 @@ class Deriver(object):
 
     def __init__(self, spec, fmt):
         self.fmt = fmt
+        self.in_tuple = False   # the entry consulted for the last record was handed over as a tuple
         self.use(spec)
         self.counters = {}
         self.stats = {}     # what the derivation exercised (dict subclasses, special-looking attribute values)
@@ -150,6 +153,7 @@ class Deriver(object):
     def key(self, rec):
         spec = self.spec
         ft = rec["featuretype"]
+        self.in_tuple = False
         if spec["form"] == "callable":
             r = CALLABLES[spec["v"]](view_of(rec))
             if r is None:
@@ -163,6 +167,7 @@ class Deriver(object):
             listed, miss = [spec["v"]], "fallback"
         elif spec["form"] == "list":
             listed, miss = list(spec["v"]), "fallback"
+            self.in_tuple = spec.get("seq") == "tuple"
         elif spec["form"] == "dict":
             e, how = dict_entry(spec, ft)
             if (spec.get("cls") or "dict") != "dict":
@@ -170,6 +175,7 @@ class Deriver(object):
             if e is None:
                 return self.fresh(ft), "dict:no entry->fallback"
             listed, miss = ([e] if isinstance(e, str) else list(e)), "dict:entry absent->fallback"
+            self.in_tuple = how == "item" and not isinstance(e, str) and ft in (spec.get("tuples") or ())
         else:
             raise ValueError(spec)
         attrs = attrs_of(rec)
@@ -185,7 +191,13 @@ class Deriver(object):
                     raise Silent("listed attribute %r present without a value" % k)
                 if looks_special(vals[0]):
                     self._stat("attribute value that looks like a callable's special return value is the key")
+                if self.in_tuple:
+                    self._stat("tuple entries: keys taken from the first listed attribute that is present")
+                    if pos >= 1:
+                        self._stat("tuple entries: keys taken from the 2nd or later name of a tuple (earlier ones absent)")
                 return vals[0], ("attribute#%d" % min(pos, 2))
+        if self.in_tuple:
+            self._stat("tuple entries: no listed attribute present -> '<featuretype>_<n>'")
         return self.fresh(ft), miss
 
 
@@ -198,7 +210,7 @@ def derive_all(spec, fmt, recs, deriver=None):
             k, b = d.key(rec)
         except MultiValued as e:
             return {"outcome": "reject", "keys": keys, "branches": branches + ["multi-valued->reject"],
-                    "why": "line %d: id attribute %s has several values" % (i, e), "deriver": d}
+                    "why": "line %d: id attribute %s has several values" % (i, e), "deriver": d, "in_tuple": d.in_tuple}
         except Silent as e:
             return {"outcome": "silent", "keys": keys, "branches": branches, "why": str(e), "deriver": d}
         keys.append(k)
